@@ -1102,8 +1102,24 @@ func (s *BgpServer) getBestFromLocalCallbackLocked(peer *peer, rfList []bgp.Fami
 	}
 
 	for _, family := range peer.toGlobalFamilies(rfList) {
+		// With ADD-PATH all paths of a destination are candidates: honor
+		// send-max here as propagateUpdateToNeighbors() does. Paths that were
+		// already advertised keep their slot, new ones fill what is left and
+		// the rest is remembered as filtered by send-max so that it can be
+		// advertised when a slot becomes free.
+		addPath := peer.isAddPathSendEnabled(family)
+		sendMax := peer.getAddPathSendMax(family)
+		newlySent := make(map[string]uint8)
 		for _, path := range s.getPossibleBest(peer, family) {
 			if p := s.filterpath(peer, path, nil); p != nil {
+				if addPath && !peer.hasPathAlreadyBeenSent(p) {
+					prefix := p.GetPrefix()
+					if peer.getRoutesCount(family, prefix)+newlySent[prefix] >= sendMax {
+						peer.setPathSendMaxFiltered(p)
+						continue
+					}
+					newlySent[prefix]++
+				}
 				pathList = append(pathList, p)
 			} else {
 				filtered = append(filtered, filteredPathForPeer(peer, path))
